@@ -231,6 +231,42 @@ func accDiscipline(info *types.Info, body *ast.BlockStmt, call *ast.CallExpr, ac
 				}
 			}
 			if !guarded {
+				// or: every path from the call to the assignment has established acc == nil (an early
+				// `if acc != nil { return acc }` in front of it) and not assigned acc since
+				reachedUnknown := false
+				Scan(f, loc, 0, Stepper[int]{
+					Node: func(s int, n ast.Node) (int, bool) {
+						if n == ast.Node(as) {
+							if s == 0 {
+								reachedUnknown = true
+							}
+							return s, true
+						}
+						if a2, ok := n.(*ast.AssignStmt); ok {
+							for _, l2 := range a2.Lhs {
+								if ObjOf(info, l2) == acc {
+									return 0, false
+								}
+							}
+						}
+						return s, false
+					},
+					Edge: func(s int, cond ast.Expr, taken bool) int {
+						Facts(cond, taken, func(atom ast.Expr, val bool) {
+							be, ok := ast.Unparen(atom).(*ast.BinaryExpr)
+							if !ok || ObjOf(info, be.X) != acc || !IsNil(info, be.Y) {
+								return
+							}
+							if (be.Op == token.EQL && val) || (be.Op == token.NEQ && !val) {
+								s = 1
+							}
+						})
+						return s
+					},
+				})
+				guarded = !reachedUnknown
+			}
+			if !guarded {
 				why = "a later assignment overwrites the accumulated error without an `acc == nil` guard"
 			}
 		}
